@@ -384,6 +384,16 @@ P("C10", "A build that fails or is cancelled reports it and can be rolled back",
   bounds={"forest": "as C01", "cancel/fault point": "any u32"},
   outside_claim=["whole-build result under faults", "abort/rollback (LMDB)", "temp files and descriptors (OS)", "LMDB MapFull at arbitrary writes of build()"],
   assumptions=["monotone cancellation callback"])
+P("C20", "Degenerate data never breaks a build or a search",
+  "bounded model checking (Kani/CBMC) of the metric primitives on all f32 bit patterns incl. NaN/inf; MIR symbolic execution (z3) of make_tree_in_file and nns_by_leaf with side decisions, distances and margins left completely unconstrained (so every degenerate geometry is among the solver's choices)",
+  "Claimed narrowly: the geometry primitives never panic and behave as documented on NaN/inf/zero inputs; tree construction terminates (under a fair-RNG assumption for the random fallback) and yields a valid subtree whatever the side decisions are; search results are well-formed whatever the distances are. two_means (200 float iterations) and wall-clock bounds are outside the claim.",
+  level_note="Trusted: as C01/C03/C04; fair-RNG assumption: a random split leaves both sides non-empty. split_imbalance's f64 arithmetic was given to z3 (FP theory) and got no verdict in 240 s even for lengths <= 255: not claimed.",
+  stubs_and_models=STD_STUBS + ["E2 model table", "dot_product as uninterpreted function in the ordering harnesses"],
+  functions_encoded=["Distance::side", "Distance::pq_distance", "Distance::normalized_distance (x7)", "Cosine::built_distance", "Writer::make_tree_in_file", "randomly_split_children", "Reader::nns_by_leaf"],
+  bounds={"make_tree": "|S| <= 2 (thorough 3)", "search": "as C03"},
+  outside_claim=["two_means / create_split internals", "split_imbalance float arithmetic (no solver verdict)", "wall-clock bounds", "real RNGs", "whole builds on degenerate datasets"],
+  assumptions=["fair RNG within the random fallback"])
+claim("C20")
 claim("C18")
 claim("C10")
 claim("C02")
